@@ -615,7 +615,15 @@ class Interp:
                 if ck.startswith("ptrcoerce:ReifyFnPointer") or ck.startswith("ptrcoerce:ClosureFnPointer"):
                     return v
                 return v
-            return ("cast", ck, v, self.ty_s(ctx, rv["to"]))
+            to = self.ty_s(ctx, rv["to"])
+            if ck == "IntToInt" and isinstance(v, tuple) and v and v[0] == "int":
+                bits = {"u8": 8, "i8": 8, "u16": 16, "i16": 16, "u32": 32, "i32": 32, "u64": 64, "i64": 64, "usize": 64, "isize": 64}.get(to)
+                if bits:
+                    x = v[1] & ((1 << bits) - 1)
+                    if to.startswith("i") and x >= (1 << (bits - 1)):
+                        x -= (1 << bits)
+                    return ("int", x)
+            return ("cast", ck, v, to)
         if k == "binop":
             a = self.operand(ctx, path, rv["a"])
             b = self.operand(ctx, path, rv["b"])
@@ -626,6 +634,8 @@ class Interp:
                 return ("len", self.deref_content(path, a))
             if rv["op"] == "Not" and isinstance(a, tuple) and a[0] == "unop" and a[1] == "Not":
                 return a[2]
+            if rv["op"] == "Neg" and isinstance(a, tuple) and a[0] == "int":
+                return ("int", -a[1])
             return ("unop", rv["op"], a)
         if k == "discr":
             loc = self.place_loc(ctx, path, rv["place"])
@@ -1408,6 +1418,11 @@ def fold_binop(op, a, b):
             if op in ("Add", "AddUnchecked"): return ("int", x + y)
             if op in ("Sub", "SubUnchecked"): return ("int", x - y)
             if op in ("Mul", "MulUnchecked"): return ("int", x * y)
+            if op == "BitAnd": return ("int", x & y)
+            if op == "BitOr": return ("int", x | y)
+            if op == "BitXor": return ("int", x ^ y)
+            if op == "Shl": return ("int", x << y)
+            if op == "Shr": return ("int", x >> y)
             if op == "Eq": return ("int", int(x == y))
             if op == "Ne": return ("int", int(x != y))
             if op == "Lt": return ("int", int(x < y))
@@ -1433,7 +1448,7 @@ def field_of(t, i):
             return field_of(t[1], i)
         if t[0] == "binop" and t[1].endswith("WithOverflow"):
             if i == 0:
-                return ("binop", t[1][:-len("WithOverflow")], t[2], t[3])
+                return fold_binop(t[1][:-len("WithOverflow")], t[2], t[3])
             return ("overflow", t[1], t[2], t[3])
         if t[0] == "downcast":
             return variant_payload(t[1], t[2], i)
